@@ -15,7 +15,7 @@ pub(crate) fn parse_offset(string: &str) -> Result<i32, AstrolabeError> {
     if string.starts_with('Z') {
         return Ok(0);
     }
-    if string.len() != 6 {
+    if string.len() != 6 || !string.is_ascii() {
         return Err(create_invalid_format(
             "Failed parsing the offset from the RFC 3339 string. Format should be +XX:XX or -XX:XX"
                 .to_string(),
